@@ -79,7 +79,9 @@ func checkC16(c *Ctx) {
 	// the rings' monitor discipline: teardown relies on Close releasing every blocked goroutine
 	for _, m := range locks.FindMonitors(c.P, c.Locks(), c.Effects()) {
 		monitorRules(c, m)
+		c.closedEndsWait(m)
 	}
+	c.drainBeforeEOF()
 
 	teardownOrder(c, "C16")
 	goroutineJoin(c)
